@@ -350,6 +350,7 @@ func c19Run(r *core.Run) {
 		flagSet  bool
 	}
 	var svns []*svnRec
+	var cfgSvnTooBig []string
 	svn := func(name string, have int, set func(v uint32)) {
 		rec := &svnRec{name: name, have: have}
 		if useConfig && t.Chance(1, 3) {
@@ -371,7 +372,16 @@ func c19Run(r *core.Run) {
 			}
 			set(uint32(rec.cfgMin))
 		}
-		if t.Chance(1, 4) {
+		if useConfig && allow(3) && t.Chance(1, 12) {
+			// a minimum that does not fit 16 bits is a malformed config
+			rec.cfgGiven = true
+			big := []uint32{65536, 131072, 666666, 0xffffffff}[t.Draw(4)]
+			set(big)
+			rec.cfgMin = 0
+			cfgSvnTooBig = append(cfgSvnTooBig, name)
+			r.Probe("svn_minimum_beyond_16_bits")
+		}
+		if t.Chance(1, 3) {
 			fk := t.Draw(5)
 			if !allow(3) && (fk == 1 || fk == 4) {
 				fk = 0
@@ -395,8 +405,12 @@ func c19Run(r *core.Run) {
 				args = append(args, fmt.Sprintf("-%s=0x%x", name, have))
 				rec.flagSet, rec.flagMin = true, have
 			case 4:
-				args = append(args, "-"+name+"=lots")
+				bad := []string{"lots", "65536", "131072", "666666", "0x10000"}[t.Draw(5)]
+				args = append(args, "-"+name+"="+bad)
 				flagMalformed = name
+				if bad != "lots" {
+					r.Probe("svn_minimum_beyond_16_bits")
+				}
 			}
 		}
 		svns = append(svns, rec)
@@ -539,6 +553,20 @@ func c19Run(r *core.Run) {
 	}
 	if flagMalformed != "" {
 		causes.add(1, "malformed -"+flagMalformed)
+	}
+	for _, big := range cfgSvnTooBig {
+		if dropped("header_policy") {
+			break
+		}
+		overridden := false
+		for _, sv := range svns {
+			if sv.name == big && sv.flagSet {
+				overridden = true
+			}
+		}
+		if !overridden {
+			causes.add(1, "config "+big+" does not fit 16 bits")
+		}
 	}
 	if policyFails != "" {
 		causes.add(4, "policy expectation "+policyFails+" not met")
